@@ -262,7 +262,8 @@ def result_inst(S, tier):
     return Inst('c08_struct_result_of_a_sandbox_call_%s' % S, 'rlbox_sandbox<vsbx>& s, void* fp', 's.INTERNAL_invoke_with_func_ptr<%s()>("f", fp);' % S, cl, h,
                 leaves=['dynamic_check', stub] + FN_LEAVES + ['vsbx.impl_get_unsandboxed_pointer', 'vsbx.impl_get_unsandboxed_pointer_no_ctx', 'find_sandbox_from_example'],
                 prop=PROP, root_name='INTERNAL_invoke_with_func_ptr', tier=tier, pre=PRE_GHOST + FN_GHOST + spec_decls(S) + ' unsigned g_gcalls; struct %s g_guest;\n' % SBX,
-                timeout=300, object_bits=12, note='by-value struct result: the backend hands back the guest image; converted with the called sandbox as context')
+                timeout=300, object_bits=12, solvers=('cadical', 'z3') if S == 'VFn' else ('minisat',),
+                note='by-value struct result: the backend hands back the guest image; converted with the called sandbox as context')
 
 
 def units(tier):
